@@ -1,24 +1,18 @@
 #!/usr/bin/env python3
-"""prints the markdown table 'which checks catch which seeded change' from /verif/seeded/*/meta.json"""
+"""prints the markdown table 'which checks catch which seeded change' (DESIGN 11.6) from /verif/seeded/*/meta.json, the latest
+regression (/verif/seeded/regress.json, tools/seed_regress.py) and /verif/seeded/gained.json"""
 import json, glob, os
-rows = []
+gained = json.load(open("/verif/seeded/gained.json")) if os.path.exists("/verif/seeded/gained.json") else {}
+regress = json.load(open("/verif/seeded/regress.json")) if os.path.exists("/verif/seeded/regress.json") else {}
+print("| seed | change (abridged) | caught by (quick tier) | missed at first by | what the machinery gained from it |")
+print("|---|---|---|---|---|")
 for m in sorted(glob.glob("/verif/seeded/*/meta.json")):
     d = json.load(open(m))
-    v = d.get("verified", {})
     sid = os.path.basename(os.path.dirname(m))
-    checks = v.get("checks", {})
-    caught = [c for c, r in checks.items() if r["exit"] == 1]
-    missed = [c for c, r in checks.items() if r["exit"] == 0]
-    incon = [c for c, r in checks.items() if r["exit"] not in (0, 1)]
-    how = ""
-    for c in caught[:1]:
-        ls = [l for l in checks[c]["lines"] if l.startswith("violation:")]
-        how = ls[0][11:170] if ls else ""
-    rows.append((sid, d.get("property", v.get("property")), (d.get("summary") or "")[:150].replace("|", "/").replace("\n", " "),
-                 (d.get("needs") or "")[:150].replace("|", "/").replace("\n", " "),
-                 "yes" if v.get("pinned_suite_passes") else "NO", "yes" if v.get("demo_fails_with_change") and v.get("demo_passes_without_change") else "?",
-                 ", ".join(caught) or "-", ", ".join(missed) or "-", ", ".join(incon) or "-", how.replace("|", "/")))
-print("| seed | property | change | needs | suite passes | demo ok | caught by | not caught by | inconclusive | first report |")
-print("|---|---|---|---|---|---|---|---|---|---|")
-for r in rows:
-    print("| " + " | ".join(str(x) for x in r) + " |")
+    checks = dict(d.get("verified", {}).get("checks", {}))
+    first_missed = [c for c, r in d.get("first_verified", {}).get("checks", {}).items() if r["exit"] != 1]
+    if sid in regress and "checks" in regress[sid]:
+        checks.update(regress[sid]["checks"])
+    caught = sorted(c for c, r in checks.items() if r["exit"] == 1)
+    summ = (d.get("summary") or "")[:130].replace("|", "/").replace("\n", " ")
+    print("| %s | %s | %s | %s | %s |" % (sid, summ, ", ".join(caught) or "-", ", ".join(first_missed) or "-", gained.get(sid, "-")))
